@@ -75,6 +75,14 @@ def self_attrs(node, ctx):
 
 
 def check(src, rep):
+    try:
+        _check(src, rep)
+    except TableWrong as e:
+        rep.violation("O1", f"{MOD}.{CLS}", f"table {e}", "the look-up table is not the RFC 1662 FCS-16 table at the point where it is read (wrong entries, or not yet built when the "
+                      "static one-shot functions or the constructor read it)", src.file(MOD), 1, witness=str(e))
+
+
+def _check(src, rep):
     M = Model(src)
     ce = ConstEval(M)
     key = (MOD, CLS)
@@ -87,6 +95,13 @@ def check(src, rep):
         need[n] = cls.methods[n]
     rep.count("modules", len(src.text))
     rep.count("functions", 5)
+    # every read of checksum / is_good must recompute from the current register: no memoising decorator
+    for n in ("checksum", "is_good"):
+        decs = [ast.unparse(d) for d in need[n].node.decorator_list]
+        memo = [d for d in decs if any(k in d for k in ("cached_property", "lru_cache", "cache"))]
+        if memo:
+            rep.violation("O4" if n == "checksum" else "O5", f"{MOD}.{CLS}.{n}", "memoised", f"{n} is memoised (@{memo[0]}): after further update() calls it still reports the value of its first read",
+                          src.file(MOD), need[n].node.lineno, witness=memo[0])
     rep.assumptions += [
         "Python int semantics of ^ >> << & | on non-negative integers",
         "octets passed to update()/compute_checksum() are integers 0..255",
@@ -454,11 +469,54 @@ def _window_verdict(lo, hi, names):
     return "bad", f"window end is clamped to {b}: a window reaching the end of the data (start+length = len(data)) is shortened"
 
 
+def _window_grid(M, ce, fn, Ex):
+    """the whole function on six symbolic octets for every window with start <= 4 and length <= 4: (cells, first mismatch | None, reason it could not be evaluated | None)"""
+    vars = Vars()
+    octs = [vars.fresh(f"o{i}", 8) for i in range(8)]
+    data, start, length = fn.params
+    body = _body(fn)
+    cells = 0
+    for st in range(0, 5):
+        for ln in range(0, 5):
+            if st + ln > len(octs):
+                continue
+            ex = Ex(M, ce, vars, MOD, (MOD, CLS))
+            env = {data: list(octs), start: BV.const(st), length: BV.const(ln)}
+            try:
+                r = ex.run_body(body, env)
+            except Top as e:
+                return cells, None, str(e)
+            ref = BV.const(INIT)
+            for o in octs[st:st + ln]:
+                ref = ref_crc_reflected_step(ref, o, POLY)
+            cells += 1
+            if not isinstance(r, BV) or r != (ref ^ BV.const(0xFFFF)):
+                return cells, (st, ln), None
+    return cells, None, None
+
+
 def _check_compute_checksum(rep, M, ce, fn, file, Ex):
     at = f"{MOD}.{CLS}.compute_checksum"
     params = fn.params
     if len(params) != 3:
         raise Undecided("compute_checksum signature changed")
+    cells, mismatch, why_not = _window_grid(M, ce, fn, Ex)
+    rep.count("window_cells", cells)
+    if mismatch is not None:
+        rep.violation("O7", at, "window", f"for the window start={mismatch[0]}, length={mismatch[1]} of symbolic octets the result is not the complemented RFC 1662 fold over exactly data[start : start+length]",
+                      file, fn.node.lineno, witness=f"start={mismatch[0]} length={mismatch[1]}")
+        return
+    try:
+        _check_compute_checksum_shape(rep, M, ce, fn, file, Ex)
+    except Undecided as e:
+        if why_not is None and cells:
+            raise Undecided(f"{e}; all {cells} windows with start, length <= 4 over symbolic octets are correct, but the fold is not in the loop catalogue that extends this to every length")
+        raise
+
+
+def _check_compute_checksum_shape(rep, M, ce, fn, file, Ex):
+    at = f"{MOD}.{CLS}.compute_checksum"
+    params = fn.params
     data, start, length = params
     names = (start, length, data)
     body = _body(fn)
